@@ -119,6 +119,31 @@ def run(ctx):
         ctx.ob("T4.CHECKSUM-ON-EVERY-PATH", f.id, ok, "every Ok path of the frame reader passes validate_checksum" if ok else
                "a frame can be returned without checksum validation", f.loc(), describe_path(f, esc[0]) if esc else None)
     ctx.floor("T4.checksum_sites", n, 2)
+    # T4b: whoever decides where the valid prefix ends must use a checksum-validating reader.  read_header_only checks the header
+    # shape only; a frame with an intact header and a torn page image is "valid" for it.  It may be used for cost estimates, never
+    # by Wal::open (which positions the writer), the replay/recovery loops or the checkpoint scans.
+    validating = set(readers[:2])
+    nv = 0
+    for f in sorted(m.fns.values(), key=lambda f: f.id):
+        if f.kind == "closure":
+            continue
+        weak = [c for c in f.calls if c.name == "storage::wal::WalSegment::read_header_only"]
+        if not weak or f.id == "storage::wal::WalSegment::read_header_only":
+            continue
+        nv += 1
+        positions = any(is_seek(c) for c in f.calls) or any(
+            s_[0] == "=" and s_[1][1] and place_fields(s_[1]) and place_fields(s_[1])[-1].endswith("WalSegment::offset") for b in f.blocks for s_ in b["s"])
+        writes_pages = any(c.name.endswith("::copy_from_slice") or c.name.endswith("Storage>::page_mut") or c.name.endswith("MmapStorage::page_mut") for c in f.calls)
+        okw = not positions and not writes_pages
+        ctx.ob("T4b.PREFIX-BY-CHECKSUM", f.id, okw, "header-only reader used without positioning the writer or replaying pages" if okw else
+               "%s decides the end of the valid prefix (it positions the writer / replays pages) with read_header_only, which does not verify the "
+               "frame checksum: a frame with a torn page image is accepted and later frames are appended behind it" % f.id.rsplit("::", 1)[-1], weak[0].loc())
+    wo_ = m.fn("storage::wal::Wal::open")
+    used = [c for c in wo_.calls if c.name.startswith("storage::wal::WalSegment::read_")]
+    okv = bool(used) and all(c.name in validating for c in used)
+    ctx.ob("T4b.OPEN-SCAN-VALIDATES", "Wal::open", okv, "the open-time scan reads frames with a checksum-validating reader" if okv else
+           "Wal::open scans the latest segment with %s: the append position is placed behind frames whose checksum was never verified"
+           % sorted({c.name.rsplit("::", 1)[-1] for c in used if c.name not in validating}), wo_.loc())
 
     # T5
     n = 0
